@@ -334,7 +334,7 @@ pub fn run(args: &Args) {
     crate::drive_parallel(
         &report,
         "resolve",
-        args.tier.pick(20_000, 600_000),
+        args.tier.pick(60_000, 600_000),
         || gen_iso::printed_only(&params).prop_map(|p| case_of(&p)),
         |c| {
             let st = check(c)?;
